@@ -521,7 +521,7 @@ pub fn run(run: &Run) {
     let get = |n: &str| &*find_sub(&subs, n).unwrap().f;
     run_regressions(run, &subs);
     run.fixed("value-tree-probe", &[vec![0]], get("value-tree-probe"));
-    let n = run.tier.pick(60_000, 1_000_000);
+    let n = run.tier.pick(60_000, 3_000_000);
     run.random("roundtrip", n, 300, get("roundtrip"));
     run.random("mutated", n * 2, 400, get("mutated"));
     if run.tier == Tier::Thorough {
